@@ -156,4 +156,14 @@ PROPS = {
         quick=dict(shards=16, checks=400, extra=[dict(run="TestSizes", shards=4)], timeout=900),
         thorough=dict(shards=16, checks=8000, extra=[dict(run="TestSizes", shards=16)], timeout=3400),
     ),
+    "C15": dict(
+        pkg="c15",
+        technique="differential property-based testing (rapid) against Go's image/jpeg (decoder and encoder) and an independent reference baseline encoder, both directions",
+        level_text="Exploration: direction A decodes every library Baseline/Extended 8-bit stream with image/jpeg and compares with the library decoder; direction B feeds streams from image/jpeg.Encode (grey, 4:2:0) and from ref/dctenc (4:4:4, 4:2:2, 4:2:0, 4:4:0; standard/optimised Huffman; restart intervals; JFIF/Adobe/COM segments; component ids 1..3 / 0..2) to both library decoders; all sizes 1..33 x 1..33 swept.",
+        level_note="Trusts image/jpeg as the independent implementation and ref/dctenc (every reference stream is first accepted by image/jpeg, else the run is a harness fault).",
+        rule=("rapid-generated (image, direction, codec, quality, stream layout). Non-trivial: width or height not a multiple of the MCU size, or >= 2 MCUs. Distinct = hash of the case."),
+        assumptions=COMMON_ASSUME + ["Go's image/jpeg is a conformant baseline decoder/encoder"],
+        quick=dict(shards=16, checks=300, extra=[dict(run="TestSizes", shards=4)], timeout=900),
+        thorough=dict(shards=16, checks=6000, extra=[dict(run="TestSizes", shards=16)], timeout=3400),
+    ),
 }
